@@ -68,6 +68,7 @@ fn run(key: &str, a: &[String]) -> String {
 }
 
 mod more;
+mod molwalk;
 mod freezer;
 
 fn main() {
